@@ -212,6 +212,21 @@ def _render(ck, fx):
         for v in ("Null", "Integer", "Boolean", "Reference"):
             ck.ob("R15.render", "Pointer::%s" % v, bool(got.get(v)), loc(m), {"Null": "renders the text `null`", "Integer": "renders the payload's decimal to_string()",
                                                                             "Boolean": "renders the payload's to_string() (true/false)", "Reference": "renders the dereferenced heap object"}[v] + ": %s" % bool(got.get(v)))
+    # ---- the cycle guard must be path-scoped: an object reached twice without a cycle (shared substructure,
+    #      e.g. array(2, o) or two fields holding the same object) has to render normally
+    if pb is not None:
+        adds = removes = 0
+        guard_lids = set()
+        for n, ps in walk_body(pb):
+            if n.get("k") == "MethodCall" and "HeapIndex" in ((fx.ty(n["recv"]) or "") + (fx.aty(n["recv"]) or "")):
+                if n["name"] in ("push", "insert", "push_back"):
+                    adds += 1
+                elif n["name"] in ("pop", "remove", "truncate", "pop_back", "swap_remove", "take"):
+                    removes += 1
+        if adds:
+            ck.ob("R15.render", "cycle guard is path-scoped (entered objects are left again)", removes >= adds, loc(pb),
+                  "%d insertion(s) into the guard collection, %d removal(s)%s" % (adds, removes, "" if removes >= adds else
+                  " — a visited-set rejects acyclic values that reach the same object twice (shared substructure must print)"))
     # ---- Array
     ab = fx.body(A.get("array.render"))
     if ck.anchor("R15.render", "Array rendering", ab):
